@@ -45,3 +45,26 @@ CONTRACTS.append(
         ],
     )
 )
+
+# json_schema_property_to_param (cdd/json_schema/utils/parse_utils.py): JSON-schema keywords that are folded into the
+# type never survive as keys of the returned entry -- `pattern` (-> Literal[...]) , `type` (-> typ), `description` (-> doc).
+MJ = "cdd.json_schema.utils.parse_utils"
+JENTRY = {"type?": "str", "description?": "str", "pattern?": "str", "default?": "opaque", "typ?": "str", "doc?": "str"}
+
+CONTRACTS.append(
+    Contract(
+        MJ + ":json_schema_property_to_param#fold-keywords",
+        src=MJ + ":json_schema_property_to_param",
+        block=("if 'description' in _param", "def transform_ref_fk_set", "before"),
+        params={"_param": JENTRY, "name": "str"},
+        requires=[
+            # `type` names a JSON type the table knows (else KeyError: no normal end)
+        ],
+        ensures=[
+            "not present(_param, 'description')",
+            "implies(old(present(_param, 'description')), present(_param, 'doc'))",
+            # a non-empty pattern is always turned into a Literal type and removed
+            "implies(old(present(_param, 'pattern')) and old(field(_param, 'pattern')) != '', not present(_param, 'pattern'))",
+        ],
+    )
+)
